@@ -10,7 +10,6 @@
  "bound": "operand (operator operand){0..4} terminator: every sequence of up to 4 binary operators drawn from all 18 C binary operators; called as condexpr() calls it (l == NULL, i == 0, any non-binary-operator terminator) and as it calls itself (left operand given, minimum level that of any operator, terminator any token binding less tightly)",
  "timeout": 600, "replay": false,
  "expects": ["assertion_verif"],
- "tiers": {"thorough": {"cflags": ["-DNOPS=5"], "unwind": 7, "timeout": 1800, "bound": "as quick, up to 5 operators"}},
  "assumes": ["the recursive call inside binaryexpr() goes through wrap_binaryexpr() (units/expr_bin/binaryexpr_redirect.h), which calls the real binaryexpr() again and keeps a symbolic-execution budget whose soundness is asserted", "next() is a token-script stand-in (SCAN.* / PP.* units); castexpr() is replaced by a stand-in that takes exactly one operand token and returns a fresh leaf (unary/postfix/primary parsing: EXPR.unaryops, EXPR.mkunary, ...); mkbinaryexpr() is replaced by a recorder returning a fresh node (typing and constraints of each operator: EXPR.mkbinary.*)"]
 }
 */
